@@ -143,9 +143,9 @@ let check_line (l : string) : string =
                   let valid_now = (match vget !v named with Some _ -> true | None -> false) in
                   if not valid_now then begin
                     if not (is_err && text_matches err_text c_Eunknownfid_text c0.c_msize) then
-                      set_verdict (Printf.sprintf "ORACLE C04.invalid_fid_not_refused %s kind=%s fid=%s" where kind (string_of_n named))
+                      set_verdict (Printf.sprintf "ORACLE C04.invalid_fid_not_refused|C05.request_on_an_invalid_fid_not_refused %s kind=%s fid=%s" where kind (string_of_n named))
                     else if fwd_i then
-                      set_verdict (Printf.sprintf "ORACLE C04.invalid_fid_forwarded %s kind=%s" where kind)
+                      set_verdict (Printf.sprintf "ORACLE C04.invalid_fid_forwarded|C05.request_on_an_invalid_fid_forwarded %s kind=%s" where kind)
                   end else if is_err && beq err_text c_Eunknownfid_text
                             && not (match tm with Twalk_ (_, nf, _) -> N.eqb nf c_NOFID | _ -> false) then
                     set_verdict (Printf.sprintf "ORACLE C04.valid_fid_refused %s kind=%s fid=%s" where kind (string_of_n named))
